@@ -350,273 +350,34 @@ func trunc(n int, s *gripql.GraphStatement) (int, bool) {
 	return 0, false
 }
 
+// State carries the static typing information along a program.
+type State struct {
+	Typ       string
+	MarkTypes map[string]string
+}
+
+func NewState() *State { return &State{MarkTypes: map[string]string{}} }
+
 // Eval interprets stmts over g. The program must be well typed (the
 // generators guarantee it); typ is filled with the documented result type.
 func Eval(g *G, stmts []*gripql.GraphStatement) (spec Spec, typ string) {
 	var ts []*Trav
-	typ = ""
-	markTypes := map[string]string{}
+	st := NewState()
 	for i := 0; i < len(stmts); i++ {
 		gs := stmts[i]
-		switch st := gs.Statement.(type) {
-		case *gripql.GraphStatement_V:
-			ids := strList(st.V)
-			base := &Trav{Marks: map[string]*El{}}
-			if len(ids) == 0 {
-				for _, id := range g.VertexIDs() {
-					ts = append(ts, base.move(vEl(g.V[id])))
-				}
-			} else {
-				for _, id := range ids {
-					if v, ok := g.V[id]; ok {
-						ts = append(ts, base.move(vEl(v)))
-					}
-				}
-			}
-			typ = "vertex"
-		case *gripql.GraphStatement_E:
-			ids := strList(st.E)
-			base := &Trav{Marks: map[string]*El{}}
-			if len(ids) == 0 {
-				for _, id := range g.EdgeIDs() {
-					ts = append(ts, base.move(eEl(g.E[id])))
-				}
-			} else {
-				for _, id := range ids {
-					if e, ok := g.E[id]; ok {
-						ts = append(ts, base.move(eEl(e)))
-					}
-				}
-			}
-			typ = "edge"
-		case *gripql.GraphStatement_Out, *gripql.GraphStatement_In, *gripql.GraphStatement_Both,
-			*gripql.GraphStatement_OutNull, *gripql.GraphStatement_InNull:
-			var labels []string
-			doIn, doOut, null := false, false, false
-			switch x := st.(type) {
-			case *gripql.GraphStatement_Out:
-				labels, doOut = strList(x.Out), true
-			case *gripql.GraphStatement_In:
-				labels, doIn = strList(x.In), true
-			case *gripql.GraphStatement_Both:
-				labels, doIn, doOut = strList(x.Both), true, true
-			case *gripql.GraphStatement_OutNull:
-				labels, doOut, null = strList(x.OutNull), true, true
-			case *gripql.GraphStatement_InNull:
-				labels, doIn, null = strList(x.InNull), true, true
-			}
-			var nt []*Trav
-			for _, t := range ts {
-				found := 0
-				if t.Cur == nil {
-					continue
-				}
-				if typ == "vertex" {
-					if doIn {
-						for _, e := range g.InEdges(t.Cur.ID, labels) {
-							if v, ok := g.V[e.From]; ok {
-								nt = append(nt, t.move(vEl(v)))
-								found++
-							}
-						}
-					}
-					if doOut {
-						for _, e := range g.OutEdges(t.Cur.ID, labels) {
-							if v, ok := g.V[e.To]; ok {
-								nt = append(nt, t.move(vEl(v)))
-								found++
-							}
-						}
-					}
-				} else { // edge -> endpoint vertices
-					if doIn {
-						if v, ok := g.V[t.Cur.From]; ok {
-							nt = append(nt, t.move(vEl(v)))
-							found++
-						}
-					}
-					if doOut {
-						if v, ok := g.V[t.Cur.To]; ok {
-							nt = append(nt, t.move(vEl(v)))
-							found++
-						}
-					}
-				}
-				if null && found == 0 {
-					nt = append(nt, t.move(nil))
-				}
-			}
-			ts, typ = nt, "vertex"
-		case *gripql.GraphStatement_OutE, *gripql.GraphStatement_InE, *gripql.GraphStatement_BothE,
-			*gripql.GraphStatement_OutENull, *gripql.GraphStatement_InENull:
-			var labels []string
-			doIn, doOut, null := false, false, false
-			switch x := st.(type) {
-			case *gripql.GraphStatement_OutE:
-				labels, doOut = strList(x.OutE), true
-			case *gripql.GraphStatement_InE:
-				labels, doIn = strList(x.InE), true
-			case *gripql.GraphStatement_BothE:
-				labels, doIn, doOut = strList(x.BothE), true, true
-			case *gripql.GraphStatement_OutENull:
-				labels, doOut, null = strList(x.OutENull), true, true
-			case *gripql.GraphStatement_InENull:
-				labels, doIn, null = strList(x.InENull), true, true
-			}
-			var nt []*Trav
-			for _, t := range ts {
-				if t.Cur == nil {
-					continue
-				}
-				found := 0
-				if doIn {
-					for _, e := range g.InEdges(t.Cur.ID, labels) {
-						nt = append(nt, t.move(eEl(e)))
-						found++
-					}
-				}
-				if doOut {
-					for _, e := range g.OutEdges(t.Cur.ID, labels) {
-						nt = append(nt, t.move(eEl(e)))
-						found++
-					}
-				}
-				if null && found == 0 {
-					nt = append(nt, t.move(nil))
-				}
-			}
-			ts, typ = nt, "edge"
-		case *gripql.GraphStatement_Has:
-			var nt []*Trav
-			for _, t := range ts {
-				if EvalHas(t, st.Has) {
-					nt = append(nt, t)
-				}
-			}
-			ts = nt
-		case *gripql.GraphStatement_HasLabel:
-			ls := strList(st.HasLabel)
-			var nt []*Trav
-			for _, t := range ts {
-				if t.Cur != nil && containsStr(ls, t.Cur.Label) {
-					nt = append(nt, t)
-				}
-			}
-			ts = nt
-		case *gripql.GraphStatement_HasId:
-			ls := strList(st.HasId)
-			var nt []*Trav
-			for _, t := range ts {
-				if t.Cur != nil && containsStr(ls, t.Cur.ID) {
-					nt = append(nt, t)
-				}
-			}
-			ts = nt
-		case *gripql.GraphStatement_HasKey:
-			ks := strList(st.HasKey)
-			var nt []*Trav
-			for _, t := range ts {
-				ok := true
-				for _, k := range ks {
-					if _, ex := Lookup(t, k); !ex {
-						ok = false
-					}
-				}
-				if ok {
-					nt = append(nt, t)
-				}
-			}
-			ts = nt
-		case *gripql.GraphStatement_As:
-			var nt []*Trav
-			for _, t := range ts {
-				nt = append(nt, t.withMark(st.As, t.Cur))
-			}
-			ts = nt
-			markTypes[st.As] = typ
-		case *gripql.GraphStatement_Select:
-			ms := st.Select.Marks
-			var nt []*Trav
-			if len(ms) == 1 {
-				for _, t := range ts {
-					n := t.move(t.Marks[ms[0]])
-					nt = append(nt, n)
-				}
-				typ = markTypes[ms[0]]
-			} else {
-				for _, t := range ts {
-					sel := map[string]*El{}
-					for _, m := range ms {
-						sel[m] = t.Marks[m]
-					}
-					nt = append(nt, &Trav{Kind: "sel", Sel: sel})
-				}
-				typ = "selection"
-			}
-			ts = nt
-		case *gripql.GraphStatement_Fields:
-			keys := strList(st.Fields)
-			var inc, exc []string
-			for _, k := range keys {
-				if strings.HasPrefix(k, "-") {
-					exc = append(exc, strings.TrimPrefix(k, "-"))
-				} else {
-					inc = append(inc, k)
-				}
-			}
-			var nt []*Trav
-			for _, t := range ts {
-				c := *t.Cur
-				nd := map[string]interface{}{}
-				switch {
-				case len(inc) > 0:
-					for _, k := range inc {
-						if v, ok := t.Cur.Data[k]; ok {
-							nd[k] = deepCopy(v)
-						}
-					}
-				case len(exc) > 0:
-					for k, v := range t.Cur.Data {
-						if !containsStr(exc, k) {
-							nd[k] = deepCopy(v)
-						}
-					}
-				}
-				c.Data = nd
-				n := &Trav{Cur: &c, Marks: t.Marks, Path: nil}
-				nt = append(nt, n)
-			}
-			ts = nt
-		case *gripql.GraphStatement_Render:
-			tm := st.Render.AsInterface()
-			var nt []*Trav
-			for _, t := range ts {
-				nt = append(nt, &Trav{Kind: "render", Render: renderT(t, tm)})
-			}
-			ts, typ = nt, "render"
-		case *gripql.GraphStatement_Path:
-			typ = "path"
-		case *gripql.GraphStatement_Unwind:
-			var nt []*Trav
-			for _, t := range ts {
-				v, _ := Lookup(t, st.Unwind)
-				l, ok := v.([]interface{})
-				if !ok || len(l) == 0 {
-					return Spec{Err: "unwind on a non-list or empty list (outside the modelled subset)"}, typ
-				}
-				for _, item := range l {
-					c := *t.Cur
-					c.Data = deepCopyMap(t.Cur.Data)
-					c.Data[st.Unwind] = deepCopy(item)
-					nt = append(nt, t.move(&c))
-				}
-			}
-			ts = nt
+		if nts, ok, err := Step(g, gs, ts, st); err != "" {
+			return Spec{Err: err}, st.Typ
+		} else if ok {
+			ts = nts
+			continue
+		}
+		typ = st.Typ
+		switch x := gs.Statement.(type) {
 		case *gripql.GraphStatement_Count:
 			ts = []*Trav{{Kind: "count", Count: len(ts)}}
-			typ = "count"
+			st.Typ = "count"
 		case *gripql.GraphStatement_Distinct:
-			fields := strList(st.Distinct)
+			fields := strList(x.Distinct)
 			if len(fields) == 0 {
 				fields = []string{"_gid"}
 			}
@@ -657,14 +418,334 @@ func Eval(g *G, stmts []*gripql.GraphStatement) (spec Spec, typ string) {
 			}
 			return weakTail(len(ts), sup, nil, nil, stmts[i:], typ)
 		default:
-			return Spec{Err: fmt.Sprintf("step %T not modelled by refql", st)}, typ
+			return Spec{Err: fmt.Sprintf("step %T not modelled by refql", x)}, typ
 		}
 	}
 	rows := make([]string, 0, len(ts))
 	for _, t := range ts {
-		rows = append(rows, RowOf(t, typ))
+		rows = append(rows, RowOf(t, st.Typ))
 	}
-	return Spec{Exact: true, Rows: rows}, typ
+	return Spec{Exact: true, Rows: rows}, st.Typ
+}
+
+// Step applies one traveler-local step (start, move, filter, as, select,
+// fields, render, path, unwind, set, increment). ok=false: the step is not
+// traveler-local (count, distinct, limit/skip/range, aggregate, mark, jump).
+func Step(g *G, gs *gripql.GraphStatement, ts []*Trav, s *State) (out []*Trav, ok bool, errs string) {
+	typ := s.Typ
+	markTypes := s.MarkTypes
+	defer func() { s.Typ = typ }()
+	switch st := gs.Statement.(type) {
+	case *gripql.GraphStatement_V:
+		ids := strList(st.V)
+		base := &Trav{Marks: map[string]*El{}}
+		if len(ids) == 0 {
+			for _, id := range g.VertexIDs() {
+				ts = append(ts, base.move(vEl(g.V[id])))
+			}
+		} else {
+			for _, id := range ids {
+				if v, ok := g.V[id]; ok {
+					ts = append(ts, base.move(vEl(v)))
+				}
+			}
+		}
+		typ = "vertex"
+	case *gripql.GraphStatement_E:
+		ids := strList(st.E)
+		base := &Trav{Marks: map[string]*El{}}
+		if len(ids) == 0 {
+			for _, id := range g.EdgeIDs() {
+				ts = append(ts, base.move(eEl(g.E[id])))
+			}
+		} else {
+			for _, id := range ids {
+				if e, ok := g.E[id]; ok {
+					ts = append(ts, base.move(eEl(e)))
+				}
+			}
+		}
+		typ = "edge"
+	case *gripql.GraphStatement_Out, *gripql.GraphStatement_In, *gripql.GraphStatement_Both,
+		*gripql.GraphStatement_OutNull, *gripql.GraphStatement_InNull:
+		var labels []string
+		doIn, doOut, null := false, false, false
+		switch x := st.(type) {
+		case *gripql.GraphStatement_Out:
+			labels, doOut = strList(x.Out), true
+		case *gripql.GraphStatement_In:
+			labels, doIn = strList(x.In), true
+		case *gripql.GraphStatement_Both:
+			labels, doIn, doOut = strList(x.Both), true, true
+		case *gripql.GraphStatement_OutNull:
+			labels, doOut, null = strList(x.OutNull), true, true
+		case *gripql.GraphStatement_InNull:
+			labels, doIn, null = strList(x.InNull), true, true
+		}
+		var nt []*Trav
+		for _, t := range ts {
+			found := 0
+			if t.Cur == nil {
+				continue
+			}
+			if typ == "vertex" {
+				if doIn {
+					for _, e := range g.InEdges(t.Cur.ID, labels) {
+						if v, ok := g.V[e.From]; ok {
+							nt = append(nt, t.move(vEl(v)))
+							found++
+						}
+					}
+				}
+				if doOut {
+					for _, e := range g.OutEdges(t.Cur.ID, labels) {
+						if v, ok := g.V[e.To]; ok {
+							nt = append(nt, t.move(vEl(v)))
+							found++
+						}
+					}
+				}
+			} else { // edge -> endpoint vertices
+				if doIn {
+					if v, ok := g.V[t.Cur.From]; ok {
+						nt = append(nt, t.move(vEl(v)))
+						found++
+					}
+				}
+				if doOut {
+					if v, ok := g.V[t.Cur.To]; ok {
+						nt = append(nt, t.move(vEl(v)))
+						found++
+					}
+				}
+			}
+			if null && found == 0 {
+				nt = append(nt, t.move(nil))
+			}
+		}
+		ts, typ = nt, "vertex"
+	case *gripql.GraphStatement_OutE, *gripql.GraphStatement_InE, *gripql.GraphStatement_BothE,
+		*gripql.GraphStatement_OutENull, *gripql.GraphStatement_InENull:
+		var labels []string
+		doIn, doOut, null := false, false, false
+		switch x := st.(type) {
+		case *gripql.GraphStatement_OutE:
+			labels, doOut = strList(x.OutE), true
+		case *gripql.GraphStatement_InE:
+			labels, doIn = strList(x.InE), true
+		case *gripql.GraphStatement_BothE:
+			labels, doIn, doOut = strList(x.BothE), true, true
+		case *gripql.GraphStatement_OutENull:
+			labels, doOut, null = strList(x.OutENull), true, true
+		case *gripql.GraphStatement_InENull:
+			labels, doIn, null = strList(x.InENull), true, true
+		}
+		var nt []*Trav
+		for _, t := range ts {
+			if t.Cur == nil {
+				continue
+			}
+			found := 0
+			if doIn {
+				for _, e := range g.InEdges(t.Cur.ID, labels) {
+					nt = append(nt, t.move(eEl(e)))
+					found++
+				}
+			}
+			if doOut {
+				for _, e := range g.OutEdges(t.Cur.ID, labels) {
+					nt = append(nt, t.move(eEl(e)))
+					found++
+				}
+			}
+			if null && found == 0 {
+				nt = append(nt, t.move(nil))
+			}
+		}
+		ts, typ = nt, "edge"
+	case *gripql.GraphStatement_Has:
+		var nt []*Trav
+		for _, t := range ts {
+			if EvalHas(t, st.Has) {
+				nt = append(nt, t)
+			}
+		}
+		ts = nt
+	case *gripql.GraphStatement_HasLabel:
+		ls := strList(st.HasLabel)
+		var nt []*Trav
+		for _, t := range ts {
+			if t.Cur != nil && containsStr(ls, t.Cur.Label) {
+				nt = append(nt, t)
+			}
+		}
+		ts = nt
+	case *gripql.GraphStatement_HasId:
+		ls := strList(st.HasId)
+		var nt []*Trav
+		for _, t := range ts {
+			if t.Cur != nil && containsStr(ls, t.Cur.ID) {
+				nt = append(nt, t)
+			}
+		}
+		ts = nt
+	case *gripql.GraphStatement_HasKey:
+		ks := strList(st.HasKey)
+		var nt []*Trav
+		for _, t := range ts {
+			ok := true
+			for _, k := range ks {
+				if _, ex := Lookup(t, k); !ex {
+					ok = false
+				}
+			}
+			if ok {
+				nt = append(nt, t)
+			}
+		}
+		ts = nt
+	case *gripql.GraphStatement_As:
+		var nt []*Trav
+		for _, t := range ts {
+			nt = append(nt, t.withMark(st.As, t.Cur))
+		}
+		ts = nt
+		markTypes[st.As] = typ
+	case *gripql.GraphStatement_Select:
+		ms := st.Select.Marks
+		var nt []*Trav
+		if len(ms) == 1 {
+			for _, t := range ts {
+				n := t.move(t.Marks[ms[0]])
+				nt = append(nt, n)
+			}
+			typ = markTypes[ms[0]]
+		} else {
+			for _, t := range ts {
+				sel := map[string]*El{}
+				for _, m := range ms {
+					sel[m] = t.Marks[m]
+				}
+				nt = append(nt, &Trav{Kind: "sel", Sel: sel})
+			}
+			typ = "selection"
+		}
+		ts = nt
+	case *gripql.GraphStatement_Fields:
+		keys := strList(st.Fields)
+		var inc, exc []string
+		for _, k := range keys {
+			if strings.HasPrefix(k, "-") {
+				exc = append(exc, strings.TrimPrefix(k, "-"))
+			} else {
+				inc = append(inc, k)
+			}
+		}
+		var nt []*Trav
+		for _, t := range ts {
+			c := *t.Cur
+			nd := map[string]interface{}{}
+			switch {
+			case len(inc) > 0:
+				for _, k := range inc {
+					if v, ok := t.Cur.Data[k]; ok {
+						nd[k] = deepCopy(v)
+					}
+				}
+			case len(exc) > 0:
+				for k, v := range t.Cur.Data {
+					if !containsStr(exc, k) {
+						nd[k] = deepCopy(v)
+					}
+				}
+			}
+			c.Data = nd
+			n := &Trav{Cur: &c, Marks: t.Marks, Path: nil}
+			nt = append(nt, n)
+		}
+		ts = nt
+	case *gripql.GraphStatement_Render:
+		tm := st.Render.AsInterface()
+		var nt []*Trav
+		for _, t := range ts {
+			nt = append(nt, &Trav{Kind: "render", Render: renderT(t, tm)})
+		}
+		ts, typ = nt, "render"
+	case *gripql.GraphStatement_Path:
+		typ = "path"
+	case *gripql.GraphStatement_Unwind:
+		var nt []*Trav
+		for _, t := range ts {
+			v, _ := Lookup(t, st.Unwind)
+			l, ok := v.([]interface{})
+			if !ok || len(l) == 0 {
+				return nil, false, "unwind on a non-list or empty list (outside the modelled subset)"
+			}
+			for _, item := range l {
+				c := *t.Cur
+				c.Data = deepCopyMap(t.Cur.Data)
+				c.Data[st.Unwind] = deepCopy(item)
+				nt = append(nt, t.move(&c))
+			}
+		}
+		ts = nt
+	case *gripql.GraphStatement_Set:
+		var nt []*Trav
+		for _, t := range ts {
+			nt = append(nt, setVal(t, st.Set.Key, st.Set.Value.AsInterface()))
+		}
+		ts = nt
+	case *gripql.GraphStatement_Increment:
+		var nt []*Trav
+		for _, t := range ts {
+			v, _ := Lookup(t, st.Increment.Key)
+			f, _ := num(v)
+			nt = append(nt, setVal(t, st.Increment.Key, float64(int(f)+int(st.Increment.Value))))
+		}
+		ts = nt
+	default:
+		return nil, false, ""
+	}
+	return ts, true, ""
+}
+
+// setVal returns a copy of t in which the referenced field of the current
+// element (or of a mark) is set; other travelers sharing the element are not
+// affected (counters are per traveler).
+func setVal(t *Trav, path string, val interface{}) *Trav {
+	parts := strings.Split(path, ".")
+	ns := ""
+	if strings.HasPrefix(parts[0], "$") {
+		ns = strings.TrimPrefix(parts[0], "$")
+		parts = parts[1:]
+	}
+	if len(parts) != 1 {
+		return t // only top-level properties are generated
+	}
+	n := &Trav{Cur: t.Cur, Marks: t.Marks, Path: t.Path}
+	upd := func(e *El) *El {
+		if e == nil {
+			return nil
+		}
+		c := *e
+		c.Data = deepCopyMap(e.Data)
+		if c.Data == nil {
+			c.Data = map[string]interface{}{}
+		}
+		c.Data[parts[0]] = val
+		return &c
+	}
+	if ns == "" {
+		n.Cur = upd(t.Cur)
+		return n
+	}
+	m := make(map[string]*El, len(t.Marks))
+	for k, v := range t.Marks {
+		m[k] = v
+	}
+	m[ns] = upd(t.Marks[ns])
+	n.Marks = m
+	return n
 }
 
 func keyOf(t *Trav, fields []string) (string, bool) {
